@@ -818,6 +818,41 @@ def gen_binop_jacrow(ex: ast.AST) -> str:
     return out
 
 
+
+def gen_sanitize_shape(cmp_: ast.AST) -> str:
+    """`_sanitize_derivatives`: all-finite short-cut, otherwise one `np.nan_to_num` call whose three
+    replacement values are translated.  Anything else (clip, where, a different call) is outside the
+    whitelist: the model `Py.sanitize` would no longer be a reading of the source."""
+    fn = find_func(cmp_, "_sanitize_derivatives")
+    body = [st for st in fn.body if not (isinstance(st, ast.Expr) and isinstance(st.value, ast.Constant))]
+    if len(body) != 2 or not isinstance(body[0], ast.If) or body[0].orelse \
+            or _u(body[0].test) != "np.all(np.isfinite(arr))" or [_u(x) for x in body[0].body] != ["return arr"]:
+        raise TranslateError(f"_sanitize_derivatives: expected `if np.all(np.isfinite(arr)): return arr` first, found "
+                             f"{[_u(x)[:60] for x in body]}")
+    ret = body[1]
+    if not (isinstance(ret, ast.Return) and isinstance(ret.value, ast.Call) and _u(ret.value.func) == "np.nan_to_num"
+            and [_u(a) for a in ret.value.args] == ["arr"]):
+        raise TranslateError(f"_sanitize_derivatives: slow path is not a single np.nan_to_num(arr, …): {_u(ret)[:80]!r}")
+    kw = {k.arg: _u(k.value) for k in ret.value.keywords}
+    if set(kw) != {"nan", "posinf", "neginf"}:
+        raise TranslateError(f"_sanitize_derivatives: nan_to_num keywords {sorted(kw)}")
+
+    def val(t):
+        if t == "_LARGE_GRADIENT":
+            return "largeGradient"
+        if t == "-_LARGE_GRADIENT":
+            return "(-largeGradient)"
+        try:
+            return lean_rat(ast.literal_eval(t))
+        except Exception:
+            raise TranslateError(f"_sanitize_derivatives: replacement value {t!r}")
+    return ("/-- `_sanitize_derivatives`: `(nan, posinf, neginf)` of its one `np.nan_to_num` call (after the\n"
+            "    all-finite short-cut) -/\n"
+            f"def sanitizeNan : Rat := {val(kw['nan'])}\n"
+            f"def sanitizePosInf : Rat := {val(kw['posinf'])}\n"
+            f"def sanitizeNegInf : Rat := {val(kw['neginf'])}\n")
+
+
 HEADER = """/-
   GENERATED by harness/gen_tables.py from the optyx sources — do not edit.
   Regenerated before every build; the theorems that mention these definitions are
@@ -849,7 +884,8 @@ def main(repo: str, outdir: str, dry: bool = False) -> int:
 
     def f_closures():
         return (HEADER + "import Optyx.Py.Sanitize\n\nnamespace Optyx.Generated\nopen Optyx Optyx.Py\n\n"
-                + gen_closure_tables(src("core/compiler.py"), src("core/autodiff.py")) + "\nend Optyx.Generated\n")
+                + gen_closure_tables(src("core/compiler.py"), src("core/autodiff.py")) + "\n"
+                + gen_sanitize_shape(src("core/compiler.py")) + "\nend Optyx.Generated\n")
 
     def f_jacrow():
         return (HEADER + "import Optyx.Py.JacScale\n\nnamespace Optyx.Generated\nopen Optyx Optyx.Py\n\n"
